@@ -639,7 +639,7 @@ def gen_line_seq(rng, maxlen=12):
     return kinds, texts
 
 
-def py_sections_spec(kinds, texts, eol="lf"):
+def py_sections_spec(kinds, texts, eol="lf", final_nl=True):
     """the grammar: items up to and including the first error, as (tag, detail)"""
     out = []
     cur = None
@@ -647,7 +647,7 @@ def py_sections_spec(kinds, texts, eol="lf"):
         if k == "U":
             out.append(("E", "utf8")); return out
         if k == "J":
-            if t.endswith(b"\r") and eol == "lf":
+            if t.endswith(b"\r") and eol == "lf" and (final_nl or idx < len(kinds) - 1):
                 t = t[:-1]   # followed by LF (sections_case sees to that) the last CR belongs to the terminator; before CRLF it stays
             out.append(("E", "badline:" + ("h" if t.startswith(b"chain") else "d") + ":" + xtok(t))); return out
         if k == "B":
@@ -670,7 +670,7 @@ def py_sections_spec(kinds, texts, eol="lf"):
 
 def sections_case(rng, kinds, texts):
     eol = b"\n"
-    data = eol.join(texts) + (eol if (texts and (rng.random() < 0.7 or texts[-1].endswith(b"\r"))) else b"")
+    data = eol.join(texts) + (eol if (texts and rng.random() < 0.7) else b"")
     if texts and texts[-1] == b"" and not data.endswith(b"\n\n") and len(texts) > 0:
         # a final blank line only exists if it is terminated
         data = eol.join(texts) + eol
@@ -683,9 +683,10 @@ def gen_C05(rng, tier):
     for _ in range(n):
         kinds, texts = gen_line_seq(rng)
         case, data = sections_case(rng, kinds, texts)
-        has_err = any(t == "E" for t, _ in py_sections_spec(kinds, texts))
+        fnl = data.endswith(b"\n")
+        has_err = any(t == "E" for t, _ in py_sections_spec(kinds, texts, "lf", fnl))
         groups.append(group("with-error" if has_err else "error-free", "c05_sections", [case],
-                            params={"kinds": kinds, "texts": [t.hex() for t in texts]}, nontrivial=len(kinds) > 1))
+                            params={"kinds": kinds, "texts": [t.hex() for t in texts], "final_nl": fnl}, nontrivial=len(kinds) > 1))
         if rng.random() < 0.25 and texts:
             # the same lines CRLF-terminated and delivered in pieces (1 byte at a time, two pieces, random pieces): the line
             # sequence is what the grammar is about, not how the bytes arrive
@@ -724,7 +725,7 @@ def o_c05_sections(params, cases, outs):
     items = items[:-1]
     if len(items) > len(kinds) + 1:
         return "more items (%d) than lines+1 (%d)" % (len(items), len(kinds) + 1)
-    exp = py_sections_spec(kinds, texts, params.get("eol", "lf"))
+    exp = py_sections_spec(kinds, texts, params.get("eol", "lf"), params.get("final_nl", True))
     # prefix up to and including the first error
     got = []
     for it in items:
